@@ -59,6 +59,18 @@ func (c05) Gen(dt *drv.T, c *Ctx) any {
 	if cs.Cfg.ShrinkNS == 3e9 {
 		cs.Cfg.ShrinkNS = int64(c.Pick(3, 100)) * 1e8 // the clauses checked here hold at every cut point
 	}
+	if vis {
+		// the library renders the visualisation when minimization is over: one PNG image per 64-bit word of every
+		// accepted recording. Ten seconds of minimizing a state machine (thousands of accepted steps of hundreds of
+		// words each) kept one thorough shard rendering for more than 98 minutes, twice. The clauses checked with the
+		// visualisation hold at every cut point, so these cases get a short minimization and short state machines.
+		if cs.Cfg.ShrinkNS > 2e8 {
+			cs.Cfg.ShrinkNS = 2e8
+		}
+		if cs.Cfg.Steps == 0 || cs.Cfg.Steps > 8 {
+			cs.Cfg.Steps = 8
+		}
+	}
 	return cs
 }
 
